@@ -322,7 +322,11 @@ CHECKS = {
              "dimension(n) outputs (incl. empty lists), std::vector in / out, structs as Python classes by value / "
              "pointer / reference and as results. A second module is the wide member of the TLA+ grammar "
              "(LibGenPairs: every pairing of two argument kinds, every result kind with every argument kind) with a "
-             "default value on each trailing by-value parameter, every function called with and without it.",
+             "default value on each trailing by-value parameter, every function called with and without it. Reference "
+             "counts are part of the contract (RefWhy: arguments keep their count, a created result is referenced by "
+             "the result only, also when the call raises; measured with sys.getrefcount around every call). Member "
+             "variables of a class (descriptors of seven types, +readonly, +name, wrongly typed assignments) are "
+             "validated against Members.tla, a derived class through its own and its inherited methods.",
         note="Trusted: TLC, the driver's value encoding, rt/vt.c. Keyword calls that skip an earlier defaulted "
              "parameter are outside the plan. Reference counts are not measured directly (a borrowed reference shows "
              "as a crash). Known finding: SystemError for a tuple result containing a std::string on Python >= 3.10. "
